@@ -3,6 +3,7 @@ import os
 import re
 import subprocess
 
+from vlib import apiprobe
 from vlib import common as C
 from vlib import conc
 from vlib import memsearch
@@ -36,21 +37,13 @@ PROBE_HEADERS = ['yaclib/coro/await.hpp', 'yaclib/coro/await_inline.hpp', 'yacli
                  'yaclib/coro/task.hpp', 'yaclib/coro/shared_future.hpp']
 
 
-def probe_headers(res):
-    """every public header of the awaiters must compile on its own (await_sticky.hpp did not before /repo 268e868)"""
-    lib = C.build_lib('fiber')
-    bad = []
-    for h in PROBE_HEADERS:
-        r = subprocess.run(['g++', '-std=c++20', '-fcoroutines', '-fsyntax-only', '-DYACLIB_VERIF', '-I' + os.path.join(C.REPO, 'include'),
-                            '-I' + os.path.join(lib, 'include'), '-x', 'c++', '-'], input='#include <%s>\n' % h,
-                           capture_output=True, text=True)
-        if r.returncode != 0:
-            bad.append((h, r.stderr[:1500]))
-    for h, err in bad:
-        res.violation('#include <%s>\n%s' % (h, err), '%s does not compile (the awaiter it declares cannot be used at all)' % h,
-                      name='C13_probe_%s.txt' % re.sub(r'\W+', '_', h))
-    res.coverage['header_probe'] = {'headers': PROBE_HEADERS, 'failed': [h for h, _ in bad]}
-    return not bad
+def probe_headers(res, tier='quick'):
+    """every public header of the awaiters must compile on its own (await_sticky.hpp did not before /repo 268e868), and every
+    public form of the coroutine layer must instantiate (harness/api_probe_coro.cpp through vlib/apiprobe.py)"""
+    failed = apiprobe.headers_standalone(res, 'C13', PROBE_HEADERS, kind='fiber')
+    res.coverage['header_probe'] = {'headers': PROBE_HEADERS, 'failed': failed}
+    apiprobe.stage(res, 'C13', tier)  # a form that no longer instantiates is reported; the harness may still build and say more
+    return not failed
 
 
 def other_configs(res, tier):
@@ -99,7 +92,7 @@ def run(res, tier):
         'the coroutine\'s own result word is not traced: its Result is validated at event level (the observer callback); Call/Drop/Submit are events of the instrumented executor',
         'default transfer configuration (YACLIB_SYMMETRIC_TRANSFER=1, YACLIB_FINAL_SUSPEND_TRANSFER=1) in both tiers; the thorough tier repeats the run with DISABLE_SYMMETRIC_TRANSFER and DISABLE_FINAL_SUSPEND_TRANSFER builds',
     ]
-    if not probe_headers(res):
+    if not probe_headers(res, tier):
         # the harness includes the same headers: it cannot be built
         C.proof_stage(res, 'C13', drivers=['ymdriver_coro'])
         return
@@ -119,5 +112,8 @@ def run(res, tier):
 
 
 def replay(path):
+    r = apiprobe.replay(path)
+    if r is not None:
+        return r
     r = memsearch.replay(path)
     return conc.replay('C13', path) if r is None else r
